@@ -837,31 +837,35 @@ def check_C18(world, hist, pred):
                 out.append(V("C18", "report-foreign-marker", m["stream"], scen=sid, marker=m["m"], from_scen=m["scen"]))
                 break
     # (e) root logger restored at scenario end
-    outside = []
+    expected = None         # (level, handlers) expected at the next probe outside a scenario window
+    last_seq = None
     for e in events:
         if e["depth"] != 0 or "probe" not in e or e["kind"] != "hook":
             continue
         nm = e["name"]
-        if nm in ("before_feature", "after_feature", "before_rule", "after_rule", "after_all") or \
-                (nm in ("before_tag", "before_scenario")) or \
-                (nm == "after_tag" and not e.get("scen")):
-            outside.append(e)
-    prev = None
-    for e in outside:
+        outside_ = nm in ("before_feature", "after_feature", "before_rule", "after_rule", "after_all") or \
+            nm in ("before_tag", "before_scenario") or (nm == "after_tag" and not e.get("scen"))
+        if not outside_:
+            continue
         p = e["probe"]
         sig = (p["root_level"], tuple(h for h in p["root_handlers"] if not h.startswith("LoggingCapture")))
         ncap = sum(1 for h in p["root_handlers"] if h.startswith("LoggingCapture"))
         if ncap > 1:
             out.append(V("C18", "logger-not-restored", "capture-handlers-pile-up:%d" % ncap, seq=e["seq"]))
             break
-        if prev is not None and sig != prev[0]:
-            # only a violation if a scenario ran in between
-            between = [x for x in events if prev[1] < x["seq"] < e["seq"] and x["kind"] == "step"]
+        if expected is not None and sig != expected:
+            between = [x for x in events if last_seq < x["seq"] < e["seq"] and x["kind"] == "step"]
             if between:
-                out.append(V("C18", "logger-not-restored", "level-or-handlers-changed", before=prev[0], after=sig,
-                             seq=e["seq"]))
+                what = "level" if sig[0] != expected[0] else "handlers"
+                out.append(V("C18", "logger-not-restored", what + "-changed-across-scenario",
+                             before=expected, after=sig, seq=e["seq"]))
                 break
-        prev = (sig, e["seq"])
+        lvl = sig[0]
+        for d in e["did"]:
+            if d[0] == "root_level":
+                lvl = d[1]
+        expected = (lvl, sig[1])
+        last_seq = e["seq"]
     # (f) pass-through when capture is off
     for stream, chunks in (("stdout", hist["tty_out"]), ("stderr", hist["tty_err"])):
         if cap[stream]:
